@@ -18,7 +18,7 @@ PURE_RE = re.compile(r'''(
     ::into_iter$|::new_display$|::new_debug$|Arguments::<'a>::new$|Arguments::<'a>::from_str$|::default$|::new$|::from$|::into$|
     ::starts_with$|::ends_with$|::eq_ignore_ascii_case$|::chars$|::bytes$|::rev$|::enumerate$|::zip$|::skip$|::take$|::chain$|
     ::as_slice$|::as_mut_slice$|::into_boxed_slice$|::into_vec$|::unwrap_or$|::with_capacity$|::count$|::position$|::find$|
-    ::min$|::max$|::try_from$|::try_into$|::len_utf8$|::is_char_boundary$
+    ::min$|::max$|::try_from$|::try_into$|::len_utf8$|::is_char_boundary$|::partition_point$
 )''', re.X)
 
 # externals whose first argument is written (typestate clients read the events; PX havocs the pointee value)
@@ -475,7 +475,8 @@ def call(px, st, name, t, args, fid, fn):
 
     # ---- numeric conversions kept symbolic but pure
     if PURE_RE.search(n) and not MUTATOR_RE.search(n):
-        if n.endswith('::binary_search') or n.endswith('::binary_search_by_key') or n.endswith('::binary_search_by'):
+        if n.endswith('::binary_search') or n.endswith('::binary_search_by_key') or n.endswith('::binary_search_by') or n.endswith('::partition_point') \
+                or re.search(r'iter::Iterator::position$|as std::iter::Iterator>::position$', n):
             def through(a):
                 # `vec.binary_search(..)` goes through Deref: the searched collection is the vector behind the transparent wrapper
                 for _ in range(4):
@@ -494,6 +495,30 @@ def call(px, st, name, t, args, fid, fn):
     if n.endswith('::collect') or n.endswith('::into_boxed_slice'):
         return [(st, pure(n, args))]
     return None
+
+
+def slice_owner(px, st, subj):
+    """the vector place a slice subject was borrowed from (`vec.iter()` goes through Deref): ('P', deref(&vec)) -> place of vec"""
+    try:
+        if subj[0] == 'P':
+            return vec_place(px, st, subj[1])
+        return px.canon(st, subj)
+    except Exception:
+        return None
+
+
+def no_mutation_since(px, st, callterm, target):
+    """no mutating call / store on `target` after the call event that produced `callterm`"""
+    seen = False
+    for ev in st.events[:-1]:
+        if ev[0] == 'call' and ev[1] == callterm[1] and tuple(ev[2]) == tuple(callterm[2]):
+            seen = True
+            continue
+        if seen and ev[0] == 'call' and MUTATOR_RE.search(ev[1]) and ev[2] and vec_place(px, st, ev[2][0]) == target:
+            return False
+        if seen and ev[0] == 'store' and px.is_prefix(ev[1], target):
+            return False
+    return seen
 
 
 def vec_place(px, st, v):
@@ -515,10 +540,27 @@ def index_from_search(px, st, args, op):
     idx = args[1]
     # remove/swap_remove need a found position (< len); insert accepts a found or a not-found position (<= len)
     wants = ('neg', 'pos') if op == 'insert' else ('pos',)
-    if idx[0] not in wants or idx[1][0] != 'call' or not re.search(r'::binary_search(_by|_by_key)?$', idx[1][1]):
-        return False
-    c = idx[1]
     target = vec_place(px, st, args[0])
+    if op == 'insert' and idx[0] == 'call' and idx[1].endswith('::partition_point') and idx[2]:
+        # partition_point returns a position in 0..=len: always a valid insertion index for the same vector
+        c = idx
+    elif op != 'insert' and idx[0] == 'pos' and idx[1][0] == 'call' and re.search(r'Iterator(>)?::position$', idx[1][1]) and idx[1][2]:
+        # Some(i) of iter().position(..) over the same vector: i < len
+        c = idx[1]
+        itv = c[2][0]
+        for _ in range(3):
+            if itv[0] in ('ref', 'cref'):
+                try:
+                    itv = px.deref_value(st, itv)
+                except Exception:
+                    return False
+        if itv[0] == 'sliceiter' and slice_owner(px, st, itv[1]) == target:
+            return no_mutation_since(px, st, idx[1], target)
+        return False
+    else:
+        if idx[0] not in wants or idx[1][0] != 'call' or not re.search(r'::binary_search(_by|_by_key)?$', idx[1][1]):
+            return False
+        c = idx[1]
     if vec_place(px, st, c[2][0]) != target:
         return False
     # no mutating call on the same place between the search and now
